@@ -31,6 +31,7 @@ type FG struct {
 
 type GNode struct {
 	ID    int
+	G     *FG
 	Blk   *cfg.Block
 	N     ast.Node // nil for virtual vertices
 	Succs []*GEdge
@@ -86,7 +87,7 @@ func NewFG(f *FuncInfo) *FG {
 		return true
 	})
 	newNode := func(b *cfg.Block, n ast.Node) *GNode {
-		x := &GNode{ID: len(g.Nodes), Blk: b, N: n}
+		x := &GNode{ID: len(g.Nodes), G: g, Blk: b, N: n}
 		g.Nodes = append(g.Nodes, x)
 		if n != nil {
 			g.byAST[n] = x
